@@ -218,3 +218,67 @@ package tree
 //@   maypanic
 //@   ensures [C03,C05] ok: treeOK(result) && fresh(result) && lockFree(result)
 //@   ensures [C03,C05] safe: allSafe() && sepOK()
+
+// ---------------------------------------------------------------- method.go: method sets (C04, C07, C08, C17)
+
+//@ pred bit(m string) = (m == "GET") ? 1 : ((m == "POST") ? 2 : ((m == "DELETE") ? 4 : ((m == "PUT") ? 8 : ((m == "PATCH") ? 16 :
+//@      ((m == "CONNECT") ? 32 : ((m == "TRACE") ? 64 : ((m == "HEAD") ? 128 : ((m == "OPTIONS") ? 256 : 0))))))))
+// the mask of a key set: one bit per supported method
+//@ pred maskOf(d `(Array String Bool)`) = (d["GET"] ? 1 : 0) + (d["POST"] ? 2 : 0) + (d["DELETE"] ? 4 : 0) + (d["PUT"] ? 8 : 0) + (d["PATCH"] ? 16 : 0) +
+//@      (d["CONNECT"] ? 32 : 0) + (d["TRACE"] ? 64 : 0) + (d["HEAD"] ? 128 : 0) + (d["OPTIONS"] ? 256 : 0)
+//
+// Package-level tables: written by init only (frame.global obligations), assumed everywhere else.
+//@ global [C04,C07] mim-nonnil: methodIndexMap != nil && methodIndexes != nil
+//@ global [C04,C07] mim-vals: forall k string :: methodIndexMap[k] == bit(k)
+//@ global [C04,C07] mim-dom: forall k string :: in(k, methodIndexMap) <==> bit(k) != 0
+//@ global [C04,C07] memo-total: forall i int :: 0 <= i && i < 512 ==> in(i, methodIndexes)
+//
+//@ fn buildMethodIndexes
+//@   noglobals
+//@   requires methodIndexes != nil && methodIndexMap != nil
+//@   ensures [C04,C07] present: in(index, methodIndexes)
+//@   ensures [C07] read-only-when-present: old(in(index, methodIndexes)) ==> dom(methodIndexes) == old(dom(methodIndexes)) && vals(methodIndexes) == old(vals(methodIndexes))
+//@   ensures [C04,C07] others-kept: forall j int :: j != index && old(in(j, methodIndexes)) ==> in(j, methodIndexes) && methodIndexes[j] == old(methodIndexes[j])
+//
+//@ fn node.buildMethods
+//@   requires n != nil && n.root != nil && (n.root.hasTrace ==> !in("TRACE", n.handlers))
+//@   ensures [C04] mask: n.methodIndex == maskOf(dom(n.handlers)) + ((n.root.hasTrace && len(n.handlers) > 0) ? 64 : 0)
+//@   ensures [C04] empty: len(n.handlers) == 0 ==> n.methodIndex == 0
+//@   ensures [C07] memo-read-only: dom(methodIndexes) == old(dom(methodIndexes)) && vals(methodIndexes) == old(vals(methodIndexes))
+//@   atcall tree.buildMethodIndexes [C07] present: in(arg0, methodIndexes)
+//@   inv 1 [C04] sum: n.methodIndex == maskOf(visited(1)) && (forall k string :: visited(1)[k] ==> in(k, n.handlers))
+//
+//@ fn node.AllowHeader
+//@   requires n != nil
+//@   nopanic
+//@   ensures [C04] rendered: result == methodIndexes[n.methodIndex].options
+//
+//@ fn node.Methods
+//@   requires n != nil
+//@   nopanic
+//@   ensures [C04] rendered: result == methodIndexes[n.methodIndex].methods
+
+// addMethods: validation strictly before installation (C17), automatic HEAD/OPTIONS/405 (C08)
+//@ pred reserved(n *node, m string) = m == "OPTIONS" || m == "HEAD" || (n.root.hasTrace && m == "TRACE")
+//@ pred mapSame(m map[string]T, d0 `(Array String Bool)`, v0 `(Array String Int)`) = dom(m) == d0 && vals(m) == v0
+//
+//@ fn node.addMethods
+//@   requires n != nil && n.handlers != nil && n.root != nil && n.root.optionsBuilder != nil && n.root.methodNotAllowedBuilder != nil && n.root.node != nil && n.root.methods != nil
+//@   requires (in("HEAD", n.handlers) <==> in("GET", n.handlers)) && (n.root.hasTrace ==> !in("TRACE", n.handlers))
+//@   ensures [C17] err-unchanged: result != nil ==> dom(n.handlers) == old(dom(n.handlers)) && vals(n.handlers) == old(vals(n.handlers)) && n.methodIndex == old(n.methodIndex)
+//@   ensures [C08,C17] reserved-rejected: (exists i int :: 0 <= i && i < len(methods) && reserved(n, methods[i])) ==> result != nil
+//@   ensures [C08,C17] unknown-rejected: (exists i int :: 0 <= i && i < len(methods) && bit(methods[i]) == 0) ==> result != nil
+//@   ensures [C17] duplicate-rejected: (exists i int :: 0 <= i && i < len(methods) && old(in(methods[i], n.handlers))) ==> result != nil
+//@   ensures [C17] repeated-rejected: (exists i int, j int :: 0 <= j && j < i && i < len(methods) && methods[i] == methods[j]) ==> result != nil
+//@   ensures [C08] installed: result == nil ==> (forall i int :: 0 <= i && i < len(methods) ==> in(methods[i], n.handlers))
+//@   ensures [C08] head-with-get: result == nil ==> (in("HEAD", n.handlers) <==> in("GET", n.handlers))
+//@   ensures [C08,C05] automatic: result == nil ==> in("OPTIONS", n.handlers) && in("", n.handlers)
+//@   ensures [C18,C04] no-manual-trace: result == nil ==> (n.root.hasTrace ==> !in("TRACE", n.handlers))
+//@   ensures [C08] nothing-lost: result == nil ==> (forall k string :: old(in(k, n.handlers)) ==> in(k, n.handlers))
+//@   inv 1 [C17] bound: -1 <= rangeindex && rangeindex < len(methods)
+//@   inv 1 [C17] validated: forall i int :: 0 <= i && i <= rangeindex ==> !reserved(n, methods[i]) && bit(methods[i]) != 0 && !in(methods[i], n.handlers) &&
+//@        (forall j int :: 0 <= j && j < i ==> methods[j] != methods[i])
+//@   inv 2 [C08] bound: -1 <= rangeindex && rangeindex < len(methods) && n.handlers == old(n.handlers) && n.handlers != nil
+//@   inv 2 [C17] all-valid: forall i int :: 0 <= i && i < len(methods) ==> !reserved(n, methods[i]) && bit(methods[i]) != 0
+//@   inv 2 [C08] so-far: (forall i int :: 0 <= i && i <= rangeindex ==> in(methods[i], n.handlers)) && (forall k string :: old(in(k, n.handlers)) ==> in(k, n.handlers))
+//@   inv 2 [C08] head: (in("HEAD", n.handlers) <==> in("GET", n.handlers)) && (n.root.hasTrace ==> !in("TRACE", n.handlers))
